@@ -180,11 +180,10 @@ public:
     TraceId(span_context.trace_id()).ToLowerBase16(trace_id);
     char span_id[16];
     SpanId(span_context.span_id()).ToLowerBase16(span_id);
-    char trace_flags[2];
-    TraceFlags(span_context.trace_flags()).ToLowerBase16(trace_flags);
+    const char sampled = span_context.trace_flags().IsSampled() ? '1' : '0';
     carrier.Set(kB3TraceIdHeader, nostd::string_view(trace_id, sizeof(trace_id)));
     carrier.Set(kB3SpanIdHeader, nostd::string_view(span_id, sizeof(span_id)));
-    carrier.Set(kB3SampledHeader, nostd::string_view(trace_flags + 1, 1));
+    carrier.Set(kB3SampledHeader, nostd::string_view(&sampled, 1));
   }
 
   bool Fields(nostd::function_ref<bool(nostd::string_view)> callback) const noexcept override
